@@ -380,6 +380,13 @@ func clashWorld(r *Rng, base string) (*ModuleSpec, []string, []proto.GenScript) 
 	cfg.PNested, cfg.PStd, cfg.PPre = 0, 0, 0
 	m := &ModuleSpec{ModPath: Pick(r, modPaths), GoVer: Pick(r, goVers)}
 	seg := Pick(r, []string{"model", "util", "common"}) // (not a std package name: those are reserved and never handed out plain)
+	stdTwin := r.P(0.3)
+	if stdTwin {
+		// ... or the name of a std package so young (go1.24) that a table of std names may not know it, while
+		// another package of the run imports that very std package
+		seg = "weak"
+		m.GoVer = "1.24"
+	}
 	dirs := []string{"x/" + seg, "y/" + seg}
 	users := []string{"a", "b"}
 	if r.P(0.5) {
@@ -398,6 +405,12 @@ func clashWorld(r *Rng, base string) (*ModuleSpec, []string, []proto.GenScript) 
 		}
 		p.DocTags = []Tag{{Marker: "+", Key: "gengo:" + name}}
 		drawDecls(r, cfg, p, pi)
+		m.Pkgs = append(m.Pkgs, p)
+	}
+	if stdTwin {
+		p := &PkgSpec{Dir: Pick(r, []string{"zq", "a0"}), Name: "q", Std: []string{"weak"}}
+		p.DocTags = []Tag{{Marker: "+", Key: "gengo:" + name}}
+		drawDecls(r, cfg, p, 4)
 		m.Pkgs = append(m.Pkgs, p)
 	}
 	scfg := DrawScriptConfig(r)
